@@ -180,7 +180,23 @@ Definition cross_ok (l1 l2 : list json) : bool :=
         negb (existsb agree both) || forallb agree both
     | _, _ => true end) l2) l1.
 
-Fixpoint Hb (d o l : json) {struct d} : bool :=
+(* desired is self-consistent: every list of objects inside it, at any depth,
+   satisfies (1) — needed because a list that was replaced wholesale is
+   re-examined on its own by the next apply *)
+Fixpoint self_wf (d : json) : bool :=
+  match d with
+  | JObj dm =>
+      nodup_str (akeys dm) &&
+      (fix go (dm : amap) : bool :=
+         match dm with [] => true | (_, v) :: dm' => self_wf v && go dm' end) dm
+  | JArr dl =>
+      (if all_objs dl then list_wf dl else true) &&
+      (fix go (dl : list json) : bool :=
+         match dl with [] => true | v :: dl' => self_wf v && go dl' end) dl
+  | _ => true
+  end.
+
+Fixpoint Hb' (d o l : json) {struct d} : bool :=
   match d with
   | JObj dm =>
       let om := obj_or_nil o in
@@ -189,7 +205,7 @@ Fixpoint Hb (d o l : json) {struct d} : bool :=
       (fix go (dm : amap) : bool :=
          match dm with
          | [] => true
-         | (k, dv) :: dm' => Hb dv (jget k om) (jget k lm) && go dm'
+         | (k, dv) :: dm' => Hb' dv (jget k om) (jget k lm) && go dm'
          end) dm
   | JArr dl =>
       let ol := arr_or_nil o in
@@ -204,10 +220,12 @@ Fixpoint Hb (d o l : json) {struct d} : bool :=
              | [] => true
              | it :: dl' =>
                  match item_key key it with
-                 | Some k => Hb it (find_item_or_null key k ol) (find_item_or_null key k ll)
+                 | Some k => Hb' it (find_item_or_null key k ol) (find_item_or_null key k ll)
                  | None => true
                  end && go dl'
              end) dl
       end
   | _ => true
   end.
+
+Definition Hb (d o l : json) : bool := self_wf d && Hb' d o l.
